@@ -11,12 +11,14 @@ from sa.source import class_assigns
 from sa.props._lib_d import (NONNULL, call_nodes, calls_with, const_value_is, handler_names, implied, local_def, path_under, peval,
                              reach_under, self_assigns, slice_parts, succ_of, test_value)
 from sa.props._lib_d import must_pass_under as _must_pass_under
+from sa.props._lib_d import MiniVM, VMError, VMRaise, VMStub, _NativeRaise
+from sa.source import AnalysisError
 
 PROPERTY = "C47"
 W = "protocols/haproxy/_wrapper.py"
 V1 = "protocols/haproxy/_v1parser.py"
 V2 = "protocols/haproxy/_v2parser.py"
-TECHNIQUE = "branch decisions evaluated on header prefixes along the CFG; ordering; table agreement"
+TECHNIQUE = "CFG evaluation on header prefixes; interpreted multi-call segmentation runs; ordering; tables"
 EXPLANATION = (
     "Decides: (a) the version-sniffing branches of HAProxyProtocolWrapper.dataReceived, evaluated along the CFG on every proper "
     "prefix of sample valid v1/v2 headers as first segment, must not reach the reject exit (today they do: finding F47), whole "
@@ -28,7 +30,11 @@ EXPLANATION = (
     "chosen parser is stored for later segments; getPeer/getHost return source/destination; (c) ADDRESSFORMATS has a row of the "
     "size the specification gives for every family|protocol, its width is the slice width, PREFIX/PROXYSTR/version constants of "
     "wrapper and parsers agree, the v1 protocol literals are all allowed, parsed source/destination fields land in the matching "
-    "slot. Informational only: .decode()/int() outside convertError (the exception still closes the connection). Not decided: "
+    "slot; (d) segmentation invariance with state carried across calls: wrapper, V1Parser, V2Parser and the exception classes are "
+    "interpreted together from their sources (no import of twisted) on each sample header followed by three payloads, delivered at once "
+    "and in every 2-way and many 3-way segmentations whose first segment is long enough for the sniff (>= 8 / >= 16 bytes, so that the "
+    "F47 constructs stay separate), all attributes threaded from call to call; (header given to parse, bytes forwarded, closed) must "
+    "equal the whole-stream result. Informational only: .decode()/int() outside convertError (the exception still closes the connection). Not decided: "
     "equality of parsed addresses with the header's for all inputs."
 )
 ASSUMPTIONS = [
@@ -91,6 +97,84 @@ def _consts(ctx):
         for n, v in env.items():
             out[f"{cls}.{n}"] = v
     return out
+
+
+# ---- segmentation invariance with state carried across calls (wrapper + parsers interpreted together) -----------------------------
+
+class _App(VMStub):
+    def __init__(self):
+        self.data = b""
+        self.calls = 0
+
+    def dataReceived(self, d):
+        self.data += d
+        self.calls += 1
+
+
+def _drive(ctx, chunks):
+    """Interpret HAProxyProtocolWrapper (with V1Parser / V2Parser / the exception classes from their own sources) on a sequence
+    of deliveries to one fresh wrapper object; every attribute of wrapper and parser is carried from call to call.  parse() is
+    replaced by a marker carrying the header it was given (parse is a pure function of it)."""
+    closed = []
+    sib = {"._v1parser": ctx.mod(V1), "._v2parser": ctx.mod(V2), "._exceptions": ctx.mod("protocols/haproxy/_exceptions.py")}
+    vm = MiniVM(ctx.mod(W), siblings=sib, hooks={"loseConnection": lambda vm_, o: closed.append(1), "parse": lambda vm_, o, line: ("INFO", bytes(line))})
+    app = _App()
+    w = vm.new(vm.cls("HAProxyProtocolWrapper"), None, app)
+    w.attrs["wrappedProtocol"] = app
+    for c in chunks:
+        if closed:
+            break
+        vm.call_method(w, "dataReceived", c)
+    return (w.attrs.get("_proxyInfo"), app.data, bool(closed))
+
+
+def _cuts(stream, hlen, first_min, thorough):
+    n = len(stream)
+    two = [(i,) for i in range(first_min, n)]
+    hot = sorted({i for i in list(range(first_min, first_min + 10)) + list(range(hlen - 3, hlen + 4)) + [(first_min + hlen) // 2, n - 1] if first_min <= i < n})
+    pool = list(range(first_min, n)) if thorough and n <= 70 else hot
+    three = [(i, j) for i in pool for j in pool if i < j]
+    return two + three
+
+
+def _segmentation(ctx):
+    total = 0
+    payloads = [b"hello", b"", b"a\r\nb\r\n"]
+    for ver, samples, first_min in (("v1", V1_SAMPLES, 8), ("v2", V2_SAMPLES, 16)):
+        for name, h in samples.items():
+            for pl in payloads:
+                stream = h + pl
+                label = f"{ver} {name} header + payload {pl!r}"
+                with ctx.section("segmentation " + label):
+                    c = QW + f"dataReceived | <{label}, first segment >= {first_min} bytes>"
+                    try:
+                        whole = _drive(ctx, [stream])
+                        want_hdr = h[:-2] if ver == "v1" else h
+                        ctx.check(whole == (("INFO", want_hdr), pl, False), "segmentation/whole-stream", c,
+                                  f"delivered in one segment, header + payload give (info, forwarded, closed) = {whole!r}; expected the header parsed, "
+                                  f"exactly {pl!r} forwarded, connection open")
+                        bad = None
+                        n = 0
+                        for cuts in _cuts(stream, len(h), first_min, ctx.tier == "thorough"):
+                            pts = (0,) + cuts + (len(stream),)
+                            chunks = [stream[a:b] for a, b in zip(pts, pts[1:])]
+                            got = _drive(ctx, chunks)
+                            n += 1
+                            if got != whole:
+                                bad = (chunks, got)
+                                break
+                        total += n
+                    except VMError as e:
+                        raise AnalysisError(f"haproxy wrapper/parsers: construct outside the interpreter's subset: {e}")
+                    except (VMRaise, _NativeRaise) as e:
+                        ctx.violation("segmentation/invariant", c, f"interpreting the wrapper on {stream[:40]!r}... raises {e}")
+                        continue
+                    ctx.check(bad is None, "segmentation/invariant", c,
+                              "what the application sees depends on how header + payload are cut into segments (first segment long enough for the "
+                              "version sniff): " + (f"delivered as {[bytes(x[:24]) + (b'...' if len(x) > 24 else b'') for x in bad[0]]!r} -> (info, forwarded, closed) = "
+                                                    f"{bad[1]!r}; delivered at once -> {whole!r}" if bad else ""),
+                              detail=f"{n} segmentations agree with whole-stream delivery")
+    ctx.extra["segmentations_evaluated"] = total
 
 
 def check(ctx):
@@ -484,6 +568,8 @@ def check(ctx):
             ctx.note("informational (not armed): conversions outside convertError raise ValueError/UnicodeDecodeError instead of InvalidProxyHeader; the exception still "
                      "closes the connection through the transport: " + "; ".join(sorted(set(loose))[:8]))
 
+    _segmentation(ctx)
+
 
 _SNIFF_OLD = ("            if (\n                len(data) >= 16\n                and data[:12] == V2Parser.PREFIX\n                and ord(data[12:13]) & 0b11110000 == 0x20\n            ):\n"
               "                self._parser = parser = V2Parser()\n            elif len(data) >= 8 and data[:5] == V1Parser.PROXYSTR:\n                self._parser = parser = V1Parser()\n"
@@ -521,6 +607,16 @@ MUTANTS = [
            "        if self._proxyInfo and self._proxyInfo.source:\n            return self._proxyInfo.destination\n", expect_rule="wrapper/address-from-header"),
     Mutant("v1-ports-crossed", V1, "                address.IPv4Address(\"TCP\", sourceAddr.decode(), int(sourcePort)),", "                address.IPv4Address(\"TCP\", sourceAddr.decode(), int(destPort)),",
            expect_rule="parse/source-dest-slots"),
+    Mutant("v1-terminator-searched-in-new-segment-only", V1, "        if len(self.buffer) > 107 and self.NEWLINE not in self.buffer:\n            raise InvalidProxyHeader()\n        lines = (self.buffer).split(self.NEWLINE, 1)\n        if not len(lines) > 1:\n            return (None, None)\n",
+           "        if len(self.buffer) > 107 and self.NEWLINE not in self.buffer:\n            raise InvalidProxyHeader()\n        if data.find(self.NEWLINE) < 0:\n            return (None, None)\n"
+           "        lines = (self.buffer).split(self.NEWLINE, 1)\n", expect_rule="segmentation/invariant"),
+    Mutant("v1-buffer-restarts-with-each-segment", V1, "        self.buffer += data\n        if len(self.buffer) > 107", "        self.buffer = data if self.NEWLINE in data else self.buffer + data\n        if len(self.buffer) > 107",
+           expect_rule="segmentation/invariant"),
+    Mutant("v2-length-read-from-new-segment", V2, "        size = struct.unpack(\"!H\", self.buffer[14:16])[0] + 16", "        size = struct.unpack(\"!H\", data[14:16])[0] + 16",
+           expect_rule="segmentation/invariant"),
+    Mutant("wrapper-forwards-segment-instead-of-remainder-late", W, "        if self._proxyInfo is not None:\n            return self.wrappedProtocol.dataReceived(data)\n        parser = self._parser\n",
+           "        if self._parser is not None and self._proxyInfo is None and not data:\n            return None\n        if self._proxyInfo is not None:\n            return self.wrappedProtocol.dataReceived(data[:64])\n        parser = self._parser\n",
+           expect_rule="segmentation/invariant"),
     Mutant("v1-unknown-not-allowed", V1, "    ALLOWED_NET_PROTOS = (\n        TCP4_PROTO,\n        TCP6_PROTO,\n        UNKNOWN_PROTO,\n    )", "    ALLOWED_NET_PROTOS = (\n        TCP4_PROTO,\n        TCP6_PROTO,\n    )",
            expect_rule="v1table/allowed-protocols"),
 ]
@@ -531,5 +627,8 @@ SILENT = [
     Silent("feed-result-via-locals", W, "            if remaining:\n                self.wrappedProtocol.dataReceived(remaining)\n",
            "            if remaining is not None and len(remaining) > 0:\n                self.wrappedProtocol.dataReceived(remaining)\n"),
     Silent("v2-incomplete-respelled", V2, "        if len(self.buffer) < size:\n            return (None, None)", "        if size > len(self.buffer):\n            return (None, None)"),
+    Silent("v1-terminator-search-limited-to-the-unscanned-tail", V1, "        if len(self.buffer) > 107 and self.NEWLINE not in self.buffer:\n            raise InvalidProxyHeader()\n        lines = (self.buffer).split(self.NEWLINE, 1)\n        if not len(lines) > 1:\n            return (None, None)\n",
+           "        if len(self.buffer) > 107 and self.NEWLINE not in self.buffer:\n            raise InvalidProxyHeader()\n"
+           "        if self.NEWLINE not in self.buffer[-(len(data) + len(self.NEWLINE) - 1):]:\n            return (None, None)\n        lines = (self.buffer).split(self.NEWLINE, 1)\n"),
     Silent("handler-broadened", W, "        except InvalidProxyHeader:\n            self.loseConnection()\n", "        except (InvalidProxyHeader, ValueError):\n            self.loseConnection()\n"),
 ]
